@@ -14,6 +14,7 @@ EXPLANATION = (
     "Frame obligation: no function of the gate modules writes module- or class-level mutable state (so a gate does not depend on which gates were "
     "built before); cross-checked natively on 72 constructions in sequence."
 )
+EXPLANATION = EXPLANATION + ' ADDED IN ROUNDS 5-8. BOUNDED (native): default targets of CNOT / CNOT_Heralded / CCNOT; P, Rx, Ry, Rz at 260 concrete angles (all multiples of pi/4 in [-4pi, 4pi], their neighbours, generic angles of both signs); gates composed with Circuit.add (2-3 heralded gates, then gates on higher qubits) and ccx / ccz through the converter in every control / target order. A symbolic-angle run that the gate code makes undecidable (rounding of theta) is reported as undecided.'
 ASSUMPTIONS = ["A1: IEEE doubles are treated as exact reals by the lifting (float literals become exact rationals)",
                "trig: cos/sin atoms with c^2+s^2=1 per distinct angle; exp(i x) = cos x + i sin x; values at rational multiples of pi from the exact table"]
 TRUSTED = ["CPython executing the lifted modules", "vf/xlift/field.py exact field + numpy object-dtype proxy (vf/xlift/hook.py)",
